@@ -8,7 +8,9 @@ RULE = (
     'VipMgr / RuleMgr / EndpointsMgr over a real temp directory: 3-7 owners (unique container names; endpoint owners '
     'are incarnations of 1-3 instances) appear and disappear (owner path created / removed) at random points and never '
     'come back; create (automatic and picked IPs in a /30../27 network driven to exhaustion and back, optionally a '
-    'second pool on the same directory; 3-9 rule names / 2-5 spec names per instance shared by all owners), release '
+    'second pool on the same directory; 3-9 rule names / 2-5 spec names per instance shared by all owners; in 45% of '
+    'the rule cases about half of the rules live in site chains whose names are not of the TM_* word form - a dash, as '
+    'iptables allows and create_rule accepts - the read-back get_rules is judged on names of its documented grammar only), release '
     'by the holder, by another owner, of a free entry, by an owner whose path is gone, unlink_all patterns, '
     'garbage_collect, read-back (list/get_rules/get_specs), initialize. Oracle: the reference model entry->owner '
     '(vf/owndb/model.py) is replayed and compared with the directory listing after EVERY operation (free entry is '
@@ -51,7 +53,7 @@ ASSUMPTIONS = [
 BUDGET = {'quick': (56, 38.0), 'thorough': (520, 285.0)}
 REQUIRED_REACH = {'*': [
     'ops_vip_create', 'ops_rule_create', 'ops_spec_create', 'ops_vip_gc', 'ops_rule_gc', 'ops_spec_gc',
-    'create_conflicts', 'release_by_nonowner', 'release_by_owner', 'gc_mixed',
+    'create_conflicts', 'release_by_nonowner', 'release_by_owner', 'gc_mixed', 'rule_gc_dead_owner_site_chain',
     'vip_exhausted_raises', 'vip_alloc_after_exhaustion',
     'failpoints_fired', 'nested_ops', 'interleaved_gc', 'interleaved_create_ok',
     'netsvc_restarts_with_entries', 'netsvc_repeated_request_same_ip', 'netsvc_synchronize_reclaimed',
